@@ -2,6 +2,7 @@
    Property theorems only; proofs live in Proofs/C17_*.v. *)
 From stdpp Require Import gmap.
 From PV Require Import Lib.Closure Model.C17_alias Proofs.C17_alias Proofs.C17_canon Proofs.C17_remove.
+From PV Require Import Model.C17_heap Proofs.C17_heap.
 
 (* aliases() returns exactly the signed equivalence class: for every legal history of adds
    (no add relating a variable to its own negation), of any length, over any names *)
@@ -68,3 +69,74 @@ Theorem C17_copy_equal (rs : list rel) (i : nat) (r : rel) :
   rs !! i = Some r → step rs (Copy i) !! length rs = Some r.
 Proof. exact (copy_equal rs i r). Qed.
 Print Assumptions C17_copy_equal.
+
+(* ================= heap level: the sharing of Python's mutable set objects =================
+   Model/C17_heap.v models `_aliases` as key -> location -> set, in-place `|=`, fresh `{a}`
+   objects from aliases(), the re-pointing loop, and copy() giving every key its own fresh cell.
+   `hrun ops` runs a history there; `run_ops ops` runs it on the value-level model above. *)
+
+(* LOCK-STEP REFINEMENT: after ANY legal history of add / remove / copy over any number of
+   relations, every relation of the heap-level world answers aliases(), canonical_signed() and
+   canonical_variables exactly like the value-level relation with the same index — so all the
+   value-level theorems above (closure, canonical consistency, invariants, remove, copy
+   independence) transfer to the model with real object sharing *)
+Theorem C17_heap_refines (ops : list op) : legal_ops [empty_rel] ops →
+  ∀ (i : nat) (hr : hrel) (r : rel), rels (hrun ops) !! i = Some hr → run_ops ops !! i = Some r →
+  (∀ k : svar, hcls (hrun ops) hr k = cls (al r) k) ∧ hcm hr = cm r ∧ hcv hr = cv r.
+Proof. exact (heap_refines ops). Qed.
+Print Assumptions C17_heap_refines.
+
+(* ... and both runs have the same number of relations (the refinement is not vacuous) *)
+Theorem C17_heap_same_length (ops : list op) : legal_ops [empty_rel] ops →
+  length (rels (hrun ops)) = length (run_ops ops).
+Proof. exact (heap_same_length ops). Qed.
+Print Assumptions C17_heap_same_length.
+
+(* the sharing discipline in every reachable state: a set object is never reachable from two
+   different relations (OWNERSHIP), two keys of one relation that share an object are aliases of
+   each other (SHARERS ARE MEMBERS), and every stored pointer is allocated and below `next` *)
+Theorem C17_heap_sharing (ops : list op) : legal_ops [empty_rel] ops →
+  let w := hrun ops in
+  (∀ (i j : nat) (h1 h2 : hrel) (k1 k2 : svar) (l : loc),
+     rels w !! i = Some h1 → rels w !! j = Some h2 →
+     ptr h1 !! k1 = Some l → ptr h2 !! k2 = Some l → i = j ∧ k2 ∈ hcls w h1 k1) ∧
+  (∀ (i : nat) (hr : hrel) (k : svar) (l : loc),
+     rels w !! i = Some hr → ptr hr !! k = Some l → (l < next w)%positive ∧ is_Some (heap w !! l)).
+Proof. exact (heap_sharing ops). Qed.
+Print Assumptions C17_heap_sharing.
+
+(* after Copy i the new relation has the source's keys, canonical data and aliases() values, and
+   its pointers are pairwise distinct, freshly allocated cells, disjoint from every older relation's *)
+Theorem C17_heap_copy_fresh (ops : list op) (i : nat) (hr : hrel) : legal_ops [empty_rel] ops →
+  let w := hrun ops in
+  let w' := hstep w (Copy i) in
+  rels w !! i = Some hr →
+  ∃ hr' : hrel, rels w' = rels w ++ [hr'] ∧
+    hcm hr' = hcm hr ∧ hcv hr' = hcv hr ∧
+    (∀ k : svar, ptr hr' !! k = None ↔ ptr hr !! k = None) ∧
+    (∀ k : svar, hcls w' hr' k = hcls w hr k) ∧
+    (∀ (k1 k2 : svar) (l : loc), ptr hr' !! k1 = Some l → ptr hr' !! k2 = Some l → k1 = k2) ∧
+    (∀ (k : svar) (l : loc), ptr hr' !! k = Some l →
+       (next w ≤ l)%positive ∧ (l < next w')%positive ∧ heap w !! l = None ∧ is_Some (heap w' !! l)) ∧
+    (∀ (j : nat) (hrj : hrel) (k k' : svar) (l : loc),
+       rels w !! j = Some hrj → ptr hrj !! k = Some l → ptr hr' !! k' ≠ Some l).
+Proof. exact (heap_copy_fresh ops i hr). Qed.
+Print Assumptions C17_heap_copy_fresh.
+
+(* the mutant "shallow copy()" (Copy shares the source's pointers) does NOT refine the value
+   level: witness [add(x1,x2); copy; add(x1,x3) on the source], observed on the copy *)
+Theorem C17_shallow_copy_refuted :
+  ∃ ops : list op, legal_ops [empty_rel] ops ∧
+    ¬ (∀ (i : nat) (hr : hrel) (r : rel),
+         rels (hrun_shallow ops) !! i = Some hr → run_ops ops !! i = Some r →
+         (∀ k : svar, hcls (hrun_shallow ops) hr k = cls (al r) k) ∧ hcm hr = cm r ∧ hcv hr = cv r).
+Proof. exact shallow_copy_refuted. Qed.
+Print Assumptions C17_shallow_copy_refuted.
+
+(* non-vacuity: that same history is legal, and with the faithful copy() relation 1 exists and agrees *)
+Example C17_heap_example :
+  let a : svar := (false, 1%positive) in let b : svar := (false, 2%positive) in let c : svar := (false, 3%positive) in
+  let ops := [Add 0 a b; Copy 0; Add 0 a c] in
+  refines_atb (hrun ops) (run_ops ops) 1 a = true ∧ legal_opsb [empty_rel] ops = true.
+Proof. exact deep_copy_same_history_ok. Qed.
+Print Assumptions C17_heap_example.
